@@ -304,10 +304,10 @@ def verif_apply_py(kind, payload):
   from vlib import inproc
   return getattr(inproc, kind)(_eng(), payload)
 
-def verif_snapshot():
+def verif_snapshot(formulas=True):
   """Every table the engine knows, fetched and encoded exactly as the exported fetch_table does."""
   e = _eng()
-  return {t: actions.get_action_repr(e.fetch_table(t, formulas=True)) for t in list(e.tables)}
+  return {t: actions.get_action_repr(e.fetch_table(t, formulas=formulas)) for t in list(e.tables)}
 
 def verif_ping():
   return 'pong'
